@@ -308,7 +308,7 @@ def gossip_family(chk, mc_inv, mc_props, trace_inv, require_ops=(), module="Goss
                  writers=["a", "b", "d"], masked=True, crashers=["d"])
     v, st = run_schedules(chk, sched, "walks", sched["nodes"], invariants=trace_inv, module=tmodule)
     account(st)
-    chk.notes["walk_signatures"] = {"f2": v.f2, "f4": v.f4}
+    chk.notes["walk_signatures"] = {"f2": v.f2, "f4": v.f4, "f5": v.f5}
     # the same walks from nodes that do not know each other: they join over the stream and first hear of the
     # others through a third node
     sched2 = dict(sched, initKnown=False, walks=max(20, walks // 5))
